@@ -282,6 +282,25 @@ class Ctx:
                 ok = idx[0] == "agg" and mentions(idx, lambda z: z[0] == "call" and z[1].endswith("str::<impl str>::find") and strip(z[2][0]) == base)
                 if ok:
                     return True, "I10 char-boundary offset", "the byte offset is the Some of %s.find(..) on the same string" % expr_str(base)
+                # the same inside a closure handed to a combinator on the find result:
+                # `s.find(..).and_then(|loc| .. &s[loc..] ..)` (the offset is the closure's argument, s a capture)
+                if "{closure" in p and idx[0] == "agg":
+                    parent = p.rsplit("::{closure", 1)[0]
+                    only_arg = mentions(idx, lambda z: z[0] == "param" and z[1] == 2) and not mentions(idx, lambda z: z[0] in ("call", "bin"))
+                    if parent in prog.bodies and only_arg and base[0] == "param" and base[1] == 1 and base[2]:
+                        pex = Expr(prog, parent)
+                        for _, ct in prog.calls(parent):
+                            if not re.search(r"^core::option::Option::<T>::(and_then|map|map_or|map_or_else|filter|is_some_and)$", Program.callee_name(ct)):
+                                continue
+                            for a in ct["args"]:
+                                av = strip(pex.operand(a))
+                                if av[0] == "agg" and av[1] == "closure:" + p:
+                                    caps = dict(av[3])
+                                    recv = strip(pex.operand(ct["args"][0]))
+                                    cap = caps.get(str(base[2][0]))
+                                    if cap is not None and recv[0] == "call" and recv[1].endswith("str::<impl str>::find") and strip(recv[2][0]) == strip(cap):
+                                        return True, "I10 char-boundary offset", "the byte offset is the payload of %s.find(..) handed to this closure by %s" % (
+                                            expr_str(strip(cap)), Program.callee_name(ct).split("::")[-1])
                 return False, "", "str slice with offset `%s`" % expr_str(idx)[:80]
         else:
             base = None
